@@ -105,6 +105,16 @@ func (v numVal) goValue() any {
 	panic("kind")
 }
 
+func (v numVal) asFloat() float64 {
+	if v.k.float {
+		return v.f
+	}
+	if v.k.signed {
+		return float64(v.i)
+	}
+	return float64(v.u)
+}
+
 func (v numVal) token() string {
 	if v.k.float {
 		return v.k.name + " " + strconv.FormatUint(math.Float64bits(v.f), 10)
@@ -332,6 +342,26 @@ func runC16(c hx.Config) error {
 		emitCmp(op, a, b, "direct", directCmp(op, a.goValue(), b.goValue()))
 		if !ka.float && !kb.float && r.Chance(40) {
 			emitMul(a, b, "direct", validate.MultipleOf(a.goValue(), b.goValue()))
+		}
+		// a float operand: the documented ε-rule (modelled exactly in Model/NumFloat.lean)
+		if (ka.float || kb.float) && r.Chance(40) {
+			if r.Chance(50) { // small everyday steps and values next to their multiples
+				b = numVal{k: kb, i: int64(r.Intn(9) + 1), u: uint64(r.Intn(9) + 1), f: hx.Pick(r, []float64{0.1, 0.01, 0.5, 1e-10, 1e-7, 3, 2.5, 1e7, 1e-300, 1e300})}
+				if kb.bits == 32 && kb.float {
+					b.f = float64(float32(b.f))
+				}
+				if ka.float {
+					m := float64(r.Intn(2001) - 1000)
+					a = numVal{k: ka, f: m * b.asFloat() * hx.Pick(r, []float64{1, 1, 1 + 1e-7, 1 - 1e-7, 1 + 1e-5, 1.5})}
+					if ka.bits == 32 {
+						a.f = float64(float32(a.f))
+					}
+				}
+			}
+			v := validate.MultipleOf(a.goValue(), b.goValue())
+			o.Emit(fmt.Sprintf("c16 fmul %s %s #direct", a.token(), b.token()), hx.B01(v))
+			o.Count("fmul:d:" + ka.name + ":" + kb.name)
+			o.Count("verdict:" + hx.B01(v))
 		}
 	}
 	// (3) through real schemas: value/pointer constructors, value/pointer inputs, every method.
